@@ -345,9 +345,40 @@ def refine(expr: ast.expr, truth: bool, state: State, atom: Callable[[ast.expr, 
             return _dedup(out)
     if isinstance(expr, ast.UnaryOp) and isinstance(expr.op, ast.Not):
         return refine(expr.operand, not truth, state, atom)
+    if isinstance(expr, ast.Compare) and len(expr.ops) > 1:
+        # a < b < c   is   (a < b) and (b < c)
+        parts, left = [], expr.left
+        for op, right in zip(expr.ops, expr.comparators):
+            parts.append(ast.copy_location(ast.Compare(left=left, ops=[op], comparators=[right]), expr))
+            left = right
+        return refine(ast.copy_location(ast.BoolOp(op=ast.And(), values=parts), expr), truth, state, atom)
     if isinstance(expr, ast.Call) and isinstance(expr.func, ast.Name) and expr.func.id == "bool" and len(expr.args) == 1 and not expr.keywords:
         return refine(expr.args[0], truth, state, atom)          # bool(x) is true exactly when x is
     return _dedup(list(atom(expr, truth, state)))
+
+
+def resolve_at(cfg: "CFG", node: "Node", expr: ast.AST, depth: int = 2, keep=()) -> ast.AST:
+    """a copy of `expr` in which a local name that has exactly one reaching definition at `node` (a plain `name = <expr>`)
+    is replaced by that expression"""
+    import copy as _copy
+    cur = _copy.deepcopy(expr)
+    for _ in range(depth):
+        changed = False
+
+        class _R(ast.NodeTransformer):
+            def visit_Name(self, n):
+                nonlocal changed
+                if isinstance(n.ctx, ast.Load) and n.id not in keep:
+                    ds = [d for d in cfg.reaching_defs(node, n.id)]
+                    if len(ds) == 1 and ds[0] is not cfg.entry and ds[0].kind == "stmt" and isinstance(ds[0].ast, ast.Assign) and len(ds[0].ast.targets) == 1 \
+                            and isinstance(ds[0].ast.targets[0], ast.Name) and ds[0].ast.targets[0].id == n.id:
+                        changed = True
+                        return _copy.deepcopy(ds[0].ast.value)
+                return n
+        cur = _R().visit(cur)
+        if not changed:
+            break
+    return cur
 
 
 def _dedup(xs):
